@@ -691,10 +691,12 @@ Expected(kind, orig) ==
   ELSE orig
 \* the code units around the literal token(s) must be exactly the promised prefix
 PrefixOK(kind, s) ==
-  CASE kind \in {"py_str", "cs_str", "java_str", "ts_str", "ts_tmpl", "go_str", "cpp_str"} -> s.pre = <<>> /\ s.ntok = 1
+  CASE kind \in {"py_str", "cs_str", "java_str", "ts_str", "ts_tmpl", "go_str"} -> s.pre = <<>> /\ s.ntok = 1
+    [] kind = "cpp_str" -> s.pre = <<>> /\ s.ntok >= 1                              \* adjacent literals concatenate
+    [] kind = "cpp_wstr" -> s.ntok >= 1 /\ s.pre = [i \in 1..s.ntok |-> 76]
     [] kind = "py_fstr" -> s.pre = <<102>> /\ s.ntok = 1
     [] kind = "py_bytes" -> s.ntok >= 1 /\ s.pre = [i \in 1..s.ntok |-> 98]
-    [] kind \in {"cpp_wstr", "cpp_wchar"} -> s.pre = <<76>> /\ s.ntok = 1
+    [] kind = "cpp_wchar" -> s.pre = <<76>> /\ s.ntok = 1
 
 \* static_cast<wchar_t>(0xHHHH): the only non-literal form the generator uses for a wide character
 CastPrefix == <<115,116,97,116,105,99,95,99,97,115,116,60,119,99,104,97,114,95,116,62,40,48,120>>
